@@ -2,6 +2,23 @@ import HexProofs.Framework.Gen.RSI
 import HexProofs.Numeric.Rsi
 import HexProofs.Numeric.SeriesAvg
 import HexProofs.Numeric.Demo
+/-!
+# RSI: the whole series (closes the RSI item of `C06_FULL`)
+
+`Gen.rowMajor (rsiTree …).S raw` is the row-major run of the RSI tree (own reading + managed
+`<name>_data` series with the fields `gain` / `loss`); by `TreeSpec.engine` / `batch_iff` /
+`live_refines` it is what `calculate()`, the batch run and every append schedule return.
+
+* textbook series: `upAt`/`downAt` (moves), `wilderAvg` (plain mean of the first `p` moves at the
+  warm-up index `p`, then `avg j = (avg (j−1)·(p−1) + move j)/p`), `rsiExact`, `rsiSeries : ℕ → Option K`;
+* predicate: `RsiOK` (pair own reading / data entry), `RsiOwnOK` (own reading vs `rsiSeries`);
+* rounding budget: the data series is stored UNROUNDED (`Managed.set_reading` does not round), so
+  gain / loss are exactly the Wilder averages and the recurrence carries no error; the own
+  reading is `round n (rsiExact …)`, i.e. within `eps K n` of the textbook value at every index
+  (no growth), and inside `[0, 100]` (monotone rounding fixes `0` and `100`);
+* theorems: `rsi_series` (induction along `Gen.rowMajor` from `rsi_none` / `rsi_seed` /
+  `rsi_step`), `rsi_series_candles`, `rsi_series_engine`, `rsi_series_batch`, `rsi_series_live`.
+-/
 set_option linter.unusedSectionVars false
 set_option linter.unusedSimpArgs false
 namespace Hex
@@ -159,28 +176,28 @@ def decoRsi (nm : String) (raw : List (Candle K)) (rows : List (Val K × Val K))
   decoWith (rsiOut nm) raw rows
 
 section cand
-variable (nm : String) (hn : RsiNames nm) (hk : IsKey nm)
+variable (nm : String)
 
-theorem rsiOut_own (c : Candle K) (hc : Plain c) (r : Val K × Val K) :
+theorem rsiOut_own (hk : IsKey nm) (c : Candle K) (hc : Plain c) (r : Val K × Val K) :
     readingByCandle (rsiOut nm c r) nm = r.1 := by
   rw [readingByCandle_key nm hk]
   obtain ⟨hi, hs⟩ := hc
   simp [rsiOut, lookupKey, outD, setD, setKey, hi, hs, dset, dlookup]
 
-theorem rsiOut_data (c : Candle K) (hc : Plain c) (r : Val K × Val K) :
+theorem rsiOut_data (hn : RsiNames nm) (c : Candle K) (hc : Plain c) (r : Val K × Val K) :
     readingByCandle (rsiOut nm c r) (nm ++ "_data") = r.2 := by
   rw [readingByCandle_key _ hn.dkey]
   obtain ⟨hi, hs⟩ := hc
   simp [rsiOut, lookupKey, outD, setD, setKey, hi, hs, dset, dlookup, hn.ne]
 
-theorem rsiOut_gain (c : Candle K) (hc : Plain c) (r : Val K × Val K) :
+theorem rsiOut_gain (hn : RsiNames nm) (c : Candle K) (hc : Plain c) (r : Val K × Val K) :
     readingByCandle (rsiOut nm c r) (nm ++ "_data.gain") = r.2.nested "gain" := by
   unfold readingByCandle
   rw [hn.gain]
   obtain ⟨hi, hs⟩ := hc
   simp [rsiOut, outD, setD, setKey, hi, hs, dset, dlookup, hn.ne]
 
-theorem rsiOut_loss (c : Candle K) (hc : Plain c) (r : Val K × Val K) :
+theorem rsiOut_loss (hn : RsiNames nm) (c : Candle K) (hc : Plain c) (r : Val K × Val K) :
     readingByCandle (rsiOut nm c r) (nm ++ "_data.loss") = r.2.nested "loss" := by
   unfold readingByCandle
   rw [hn.loss]
@@ -209,6 +226,403 @@ theorem col_decoWith {R : Type} (input : String) (out : Candle K → R → Candl
       have := ih rows (by simpa using hl)
       simp only [decoWith, col, List.zipWith_cons_cons, List.map_cons, h] at this ⊢
       rw [this]
+
+theorem col_append (nm : String) (a b : List (Candle K)) : col nm (a ++ b) = col nm a ++ col nm b := by
+  simp [col]
+
+theorem gainOf_sub (a b : K) : gainOf (a - b) = max (b - a) 0 := by
+  unfold gainOf
+  by_cases h : a - b < 0
+  · rw [if_pos h, max_eq_left (by linarith)]; ring
+  · rw [if_neg h, max_eq_right (by linarith)]
+
+theorem lossOf_sub (a b : K) : lossOf (a - b) = max (a - b) 0 := by
+  unfold lossOf
+  by_cases h : 0 < a - b
+  · rw [if_pos h, max_eq_left h.le]
+  · rw [if_neg h, max_eq_right (by linarith)]
+
+theorem rsiData_gain (g l : K) : (rsiData g l).nested "gain" = .num (.flt g) := by
+  simp [rsiData, Val.nested, sdict, sc, dlookup]
+
+theorem rsiData_loss (g l : K) : (rsiData g l).nested "loss" = .num (.flt l) := by
+  simp [rsiData, Val.nested, sdict, sc, dlookup]
+
+/-- what the whole-series theorem says of candle `j`: before the warm-up index `p` both entries
+are `None`; from `p` on the data entry holds EXACTLY (the helper series is not rounded) the Wilder
+averages of the upward and downward moves, and the own reading is the rounding of the exact RSI –
+hence within `ε` of it – and lies in `[0, 100]` -/
+def RsiOK (p n : Nat) (x : Nat → K) (j : Nat) (r : Val K × Val K) : Prop :=
+  (j < p → r = (.none, .none)) ∧
+  (p ≤ j → r.2 = rsiData (wilderAvg p (upAt x) j) (wilderAvg p (downAt x) j) ∧
+    ∃ y, r.1 = .flt y ∧ y = PyF.round n (rsiExact p x j) ∧ |y - rsiExact p x j| ≤ eps K n ∧
+      0 ≤ y ∧ y ≤ 100)
+
+theorem rsiOK_mk (p n : Nat) (hp : 1 ≤ p) (x : Nat → K) (j : Nat) (hj : p ≤ j) :
+    RsiOK p n x j ((Val.flt (rsiExact p x j)).roundBy n,
+      rsiData (wilderAvg p (upAt x) j) (wilderAvg p (downAt x) j)) := by
+  refine ⟨fun h => by omega, fun _ => ⟨rfl, PyF.round n (rsiExact p x j), rfl, rfl,
+    LawfulPyF.round_err n _, ?_, ?_⟩⟩
+  · rw [← round_zero (K := K) n]; exact LawfulPyF.round_mono n (rsiExact_range p hp x j).1
+  · rw [← round_hundred (K := K) n]; exact LawfulPyF.round_mono n (rsiExact_range p hp x j).2
+
+theorem rsi_finish (nm : String) (n : Nat) (p : Int) (input : String) (done : List (Candle K)) (c : Candle K)
+    (v dv : Val K)
+    (h : Calc.rsi (dOps (nm ++ "_data") done.length) { cs := done ++ [c], i := done.length, name := nm } p input
+      = .ok (v, done ++ [setKey true (nm ++ "_data") dv c])) :
+    (do let r ← Calc.rsi (dOps (nm ++ "_data") done.length) { cs := done ++ [c], i := done.length, name := nm } p input
+        setReading false nm r.2 done.length (r.1.roundBy n))
+      = .ok (done ++ [rsiOut nm c (v.roundBy n, dv)]) := by
+  rw [h]
+  simp only [pym_bind_ok]
+  rw [setReading_eq, updateAt_append_cons]
+  rfl
+
+/-- the row step of `rsiTree` is the model's `_calculate_reading` followed by the store of the
+rounded own reading -/
+theorem rsi_rowStep (nm : String) (n : Nat) (p : Int) (input : String) (hp : 0 ≤ p)
+    (hn : RsiNames nm) (hin : NoDot input ∧ input ∈ Candle.attrNames)
+    (done : List (Candle K)) (c : Candle K) :
+    Gen.rowStep (rsiTree (F := K) nm n p input hp hn hin).S done c = (do
+      let r ← Calc.rsi (dOps (nm ++ "_data") done.length) { cs := done ++ [c], i := done.length, name := nm } p input
+      setReading false nm r.2 done.length (r.1.roundBy n)) := rfl
+
+/-- **C06 for the whole RSI series** (row-major run of `rsiTree`), period `p ≥ 1`, input a candle
+field.  For EVERY raw list the run returns; the result is the raw candles with, on candle `j`, the
+pair `rows[j]` = (own reading in `.indicators`, `<name>_data` entry in `.sub_indicators`), and every
+pair satisfies `RsiOK`: both `None` before the warm-up index `p`; from `p` on the data entry is
+exactly `{gain: wilderAvg … j, loss: wilderAvg … j}` (seeded at `p` by the plain means of the first
+`p` upward / downward moves, then `avg j = (avg (j−1)·(p−1) + move j)/p`) and the own reading is
+`round n (100 − 100/(1 + gain/loss))` (`100` when `loss = 0`): within `ε` of the textbook value and
+in `[0, 100]`. -/
+theorem rsi_series (p : Nat) (hp : 1 ≤ p) (nm input : String) (fld : Candle K → Num K) (n : Nat)
+    (hn : RsiNames nm) (hk : IsKey nm) (hin : NoDot input ∧ input ∈ Candle.attrNames)
+    (hattr : ∀ c : Candle K, c.attr input = some (.num (fld c)))
+    (raw : List (Candle K)) (hraw : ∀ c ∈ raw, Plain c) :
+    ∃ rows : List (Val K × Val K), rows.length = raw.length ∧
+      Gen.rowMajor (rsiTree (F := K) nm n (p : Int) input (by omega) hn hin).S raw = .ok (decoRsi nm raw rows) ∧
+      ∀ j, j < raw.length → RsiOK p n (fieldAt fld raw) j (rows.getD j (.none, .none)) := by
+  refine gen_series_induct _ (rsiOut nm) (.none, .none) raw _ ?_
+  intro m hm rows hrows hQ
+  have htl : (raw.take m).length = m := by simp; omega
+  have hdl : (decoWith (rsiOut nm) (raw.take m) rows).length = m := by
+    rw [decoWith_length _ _ _ (by rw [htl, hrows]), htl]
+  have hmem : ∀ j, j < raw.length → Plain (raw.getD j default) := by
+    intro j hj
+    apply hraw
+    rw [List.getD_eq_getElem?_getD, List.getElem?_eq_getElem hj]
+    exact List.getElem_mem _
+  have hc : Plain (raw.getD m default) := hmem m hm
+  rw [rsi_rowStep]
+  generalize hdone : decoWith (rsiOut nm) (raw.take m) rows = done at hdl ⊢
+  generalize hcd : raw.getD m default = c at hc ⊢
+  -- the input column is the raw one
+  have hcol : Ctx.SameCol input ({ cs := done ++ [c], i := done.length, name := nm } : Ctx K)
+      (stepCtx nm raw (List.replicate m .none) m) := by
+    refine ⟨by simp [stepCtx, hdl], ?_⟩
+    show col input (done ++ [c]) = col input (decoWith (fun c v => setKey false nm v c) (raw.take m) _ ++ [raw.getD m default])
+    rw [col_append, col_append, ← hdone, hcd,
+      col_decoWith input _ (fun c r => rsiOut_input nm input hin c r) _ _ (by rw [htl, hrows]),
+      col_decoWith input _ (fun c v => indep_attr (F := K) nm input hin.1 hin.2 false v c) _ _ (by simp [htl])]
+  have hfield : ∀ j : Nat, j ≤ m →
+      ({ cs := done ++ [c], i := done.length, name := nm } : Ctx K).reading input (some (j : Int))
+        = .ok (.num (fld (raw.getD j default))) := by
+    intro j hj
+    rw [Ctx.reading_congr hcol]
+    exact stepCtx_field nm input fld raw _ m hm (by simp) hin.1 hattr j hj
+  have hper : ∀ q : Nat, 1 ≤ q →
+      ({ cs := done ++ [c], i := done.length, name := nm } : Ctx K).readingPeriod (q : Int) input = decide (q ≤ m + 1) := by
+    intro q hq
+    rw [Ctx.readingPeriod_congr hcol]
+    exact stepCtx_period nm input fld raw _ m hm (by simp) hin.1 hattr q hq
+  have hprev : ∀ key, ({ cs := done ++ [c], i := done.length, name := nm } : Ctx K).prevReading key
+      = .ok (Ctx.lastReading key done) := fun key => Ctx.prevReading_append_cons done c [] nm key
+  -- the last finished candle
+  have hlast : 1 ≤ m → ∀ key, Ctx.lastReading key done
+      = readingByCandle (rsiOut nm (raw.getD (m - 1) default) (rows.getD (m - 1) (.none, .none))) key := by
+    intro h1 key
+    unfold Ctx.lastReading
+    rw [List.getLast?_eq_getElem?, hdl, ← hdone,
+      decoWith_getElem? _ _ _ (.none, .none) (m - 1) (by rw [htl, hrows]) (by rw [htl]; omega)]
+    have : (raw.take m).getD (m - 1) default = raw.getD (m - 1) default := by
+      rw [List.getD_eq_getElem?_getD, List.getD_eq_getElem?_getD, List.getElem?_take_of_lt (by omega)]
+    rw [this]
+  have hset : ∀ v, (dOps (nm ++ "_data") (done.length : Int) : Ops K).setManaged "RSI_data" v (done ++ [c])
+      = .ok (done ++ [setKey true (nm ++ "_data") v c]) := by
+    intro v
+    show setReading true (nm ++ "_data") (done ++ [c]) done.length v = _
+    rw [setReading_eq, updateAt_append_cons]
+  have hno : dlookup (nm ++ "_data") c.inds = none := by rw [hc.1]; rfl
+  have hdata : ∀ v, ({ cs := done ++ [setKey true (nm ++ "_data") v c], i := done.length, name := nm } : Ctx K).reading (nm ++ "_data")
+      = .ok v := by
+    intro v
+    rw [Ctx.reading_cur done _ [] nm, rbc_data_self _ hn.dkey c hno]
+  have hrg : ∀ g l : Num K, ({ cs := done ++ [setKey true (nm ++ "_data") (sdict [("gain", sc g), ("loss", sc l)]) c], i := done.length, name := nm } : Ctx K).reading (nm ++ "_data.gain") = .ok (.num g) := by
+    intro g l
+    rw [Ctx.reading_cur done _ [] nm, rbc_data_field _ "gain" _ hn.gain c hno]
+    simp [Val.nested, sdict, sc, dlookup]
+  have hrl : ∀ g l : Num K, ({ cs := done ++ [setKey true (nm ++ "_data") (sdict [("gain", sc g), ("loss", sc l)]) c], i := done.length, name := nm } : Ctx K).reading (nm ++ "_data.loss") = .ok (.num l) := by
+    intro g l
+    rw [Ctx.reading_cur done _ [] nm, rbc_data_field _ "loss" _ hn.loss c hno]
+    simp [Val.nested, sdict, sc, dlookup]
+  -- previous own reading is `None` up to the warm-up index
+  have hown0 : m ≤ p → Ctx.lastReading nm done = .none := by
+    intro hmp
+    by_cases h0 : m = 0
+    · have : done = [] := List.eq_nil_of_length_eq_zero (by omega)
+      rw [this]; rfl
+    · rw [hlast (by omega), rsiOut_own nm hk _ (hmem _ (by omega)), (hQ (m - 1) (by omega)).1 (by omega)]
+  by_cases h1 : m < p
+  · -- warm-up
+    refine ⟨(.none, .none), ?_, fun _ => rfl, fun h => by omega⟩
+    refine rsi_finish nm n p input done c .none .none ?_
+    refine rsi_none _ _ p input _ (by rw [hprev, hown0 (by omega)]) ?_ ?_ (hset .none)
+    · have := hper (p + 1) (by omega)
+      rw [show ((p + 1 : Nat) : Int) = (p : Int) + 1 by push_cast; rfl] at this
+      rw [this]; simp; omega
+    · show ({ cs := done ++ [c], i := done.length, name := nm } : Ctx K).reading (nm ++ "_data") = _
+      rw [Ctx.reading_cur done c [] nm, readingByCandle_plain _ hn.dkey c hc]
+  · subst hcd
+    by_cases h2 : m = p
+    · -- seed: plain means of the first `p` moves
+      refine ⟨_, ?_, rsiOK_mk p n hp (fieldAt fld raw) m (by omega)⟩
+      refine rsi_finish nm n p input done _ _ _ ?_
+      have hrp : ({ cs := done ++ [raw.getD m default], i := done.length, name := nm } : Ctx K).readingPeriod
+          ((p : Int) + 1) input = true := by
+        have := hper (p + 1) (by omega)
+        rw [show ((p + 1 : Nat) : Int) = (p : Int) + 1 by push_cast; rfl] at this
+        rw [this]; simp; omega
+      have hr : ∀ j : Nat, j ≤ p →
+          ({ cs := done ++ [raw.getD m default], i := done.length, name := nm } : Ctx K).reading input
+            (some (((done.length : Nat) : Int) - (p : Int) + (j : Int))) = .ok (.num (fld (raw.getD j default))) := by
+        intro j hj
+        have e : ((done.length : Nat) : Int) - (p : Int) + (j : Int) = (j : Int) := by omega
+        rw [e]
+        exact hfield j (by omega)
+      have hs := rsi_seed (dOps (nm ++ "_data") (done.length : Int))
+        { cs := done ++ [raw.getD m default], i := done.length, name := nm } p input
+        (fun v => done ++ [setKey true (nm ++ "_data") v (raw.getD m default)]) (fun j => fld (raw.getD j default))
+        (by rw [hprev, hown0 (by omega)]) hrp hr hset hdata hrg hrl hp
+      have hG : ((List.range p).map fun j => max ((fld (raw.getD (j + 1) default)).toF - (fld (raw.getD j default)).toF) 0).sum / (p : K)
+          = wilderAvg p (upAt (fieldAt fld raw)) m := by
+        rw [wilderAvg_seed _ _ _ (by omega)]
+        simp [rsum, upAt, fieldAt]
+      have hL : ((List.range p).map fun j => max (-((fld (raw.getD (j + 1) default)).toF - (fld (raw.getD j default)).toF)) 0).sum / (p : K)
+          = wilderAvg p (downAt (fieldAt fld raw)) m := by
+        rw [wilderAvg_seed _ _ _ (by omega)]
+        simp [rsum, downAt, fieldAt]
+      rw [hG, hL] at hs
+      exact hs
+    · -- running: Wilder's recurrence
+      have hm1 : 1 ≤ m := by omega
+      obtain ⟨hd2, y, hy, _, _, _, _⟩ := (hQ (m - 1) (by omega)).2 (by omega)
+      have hplain := hmem (m - 1) (by omega)
+      refine ⟨_, ?_, rsiOK_mk p n hp (fieldAt fld raw) m (by omega)⟩
+      refine rsi_finish nm n p input done _ _ _ ?_
+      have hs := rsi_step (dOps (nm ++ "_data") (done.length : Int))
+        { cs := done ++ [raw.getD m default], i := done.length, name := nm } p input
+        (fun v => done ++ [setKey true (nm ++ "_data") v (raw.getD m default)])
+        (.flt y) (fld (raw.getD (m - 1) default)) (fld (raw.getD m default))
+        (.flt (wilderAvg p (upAt (fieldAt fld raw)) (m - 1))) (.flt (wilderAvg p (downAt (fieldAt fld raw)) (m - 1)))
+        (by rw [hprev, hlast hm1, rsiOut_own nm hk _ hplain, hy])
+        (by rw [hprev, hlast hm1, rsiOut_input nm input hin, readingByCandle_attr input hin.1 _ _ (hattr _)])
+        (by rw [Ctx.reading_cur done _ [] nm, readingByCandle_attr input hin.1 _ _ (hattr _)])
+        (by show _ = Except.ok _
+            rw [hprev, hlast hm1, rsiOut_gain nm hn _ hplain, hd2, rsiData_gain])
+        (by show _ = Except.ok _
+            rw [hprev, hlast hm1, rsiOut_loss nm hn _ hplain, hd2, rsiData_loss])
+        hset hdata hrg hrl hp
+        (wilderAvg_nonneg p hp _ (upAt_nonneg _) _) (wilderAvg_nonneg p hp _ (downAt_nonneg _) _)
+      have hG : ((Num.flt (wilderAvg p (upAt (fieldAt fld raw)) (m - 1)) : Num K).toF * ((p : K) - 1)
+            + gainOf ((fld (raw.getD (m - 1) default)).toF - (fld (raw.getD m default)).toF)) / (p : K)
+          = wilderAvg p (upAt (fieldAt fld raw)) m := by
+        rw [wilderAvg_step p _ m (by omega), gainOf_sub]; rfl
+      have hL : ((Num.flt (wilderAvg p (downAt (fieldAt fld raw)) (m - 1)) : Num K).toF * ((p : K) - 1)
+            + lossOf ((fld (raw.getD (m - 1) default)).toF - (fld (raw.getD m default)).toF)) / (p : K)
+          = wilderAvg p (downAt (fieldAt fld raw)) m := by
+        rw [wilderAvg_step p _ m (by omega), lossOf_sub]; rfl
+      rw [hG, hL] at hs
+      exact hs
+
+/-! ### the same statement read off the candles -/
+
+/-- a stored own reading against the textbook series: `None` where the series has no value,
+otherwise a float within `ε` of it and inside `[0, 100]` -/
+def RsiOwnOK (n : Nat) (o : Option K) (v : Val K) : Prop :=
+  match o with
+  | none => v = .none
+  | some e => ∃ y, v = .flt y ∧ |y - e| ≤ eps K n ∧ 0 ≤ y ∧ y ≤ 100
+
+/-- **RSI, whole series, candle by candle.**  For every raw list the row-major run of `rsiTree`
+returns; on candle `j` the own reading follows the textbook series `rsiSeries` (`None` before the
+warm-up index `p`, then within `ε` of `100 − 100/(1 + avgGain/avgLoss)` and in `[0, 100]`), and the
+`<name>_data` entry is `None` before `p` and afterwards holds exactly the Wilder averages of the
+upward / downward moves. -/
+theorem rsi_series_candles (p : Nat) (hp : 1 ≤ p) (nm input : String) (fld : Candle K → Num K) (n : Nat)
+    (hn : RsiNames nm) (hk : IsKey nm) (hin : NoDot input ∧ input ∈ Candle.attrNames)
+    (hattr : ∀ c : Candle K, c.attr input = some (.num (fld c)))
+    (raw : List (Candle K)) (hraw : ∀ c ∈ raw, Plain c) :
+    ∃ out : List (Candle K), out.length = raw.length ∧
+      Gen.rowMajor (rsiTree (F := K) nm n (p : Int) input (by omega) hn hin).S raw = .ok out ∧
+      ∀ j, j < raw.length →
+        RsiOwnOK n (rsiSeries p (fieldAt fld raw) j) (readingByCandle (out.getD j default) nm) ∧
+        (j < p → readingByCandle (out.getD j default) (nm ++ "_data") = .none) ∧
+        (p ≤ j →
+          readingByCandle (out.getD j default) (nm ++ "_data.gain")
+            = .flt (wilderAvg p (upAt (fieldAt fld raw)) j) ∧
+          readingByCandle (out.getD j default) (nm ++ "_data.loss")
+            = .flt (wilderAvg p (downAt (fieldAt fld raw)) j)) := by
+  obtain ⟨rows, hl, hrun, hall⟩ := rsi_series p hp nm input fld n hn hk hin hattr raw hraw
+  refine ⟨decoRsi nm raw rows, decoWith_length _ _ _ hl, hrun, ?_⟩
+  intro j hj
+  have hcj : (decoRsi nm raw rows).getD j default
+      = rsiOut nm (raw.getD j default) (rows.getD j (.none, .none)) := by
+    rw [List.getD_eq_getElem?_getD, decoRsi, decoWith_getElem? _ _ _ (.none, .none) j hl hj]; rfl
+  have hpl : Plain (raw.getD j default) := by
+    apply hraw
+    rw [List.getD_eq_getElem?_getD, List.getElem?_eq_getElem hj]
+    exact List.getElem_mem _
+  obtain ⟨hlo, hhi⟩ := hall j hj
+  rw [hcj]
+  refine ⟨?_, ?_, ?_⟩
+  · rw [rsiOut_own nm hk _ hpl]
+    unfold rsiSeries
+    by_cases h : j < p
+    · rw [if_pos h, hlo h]; rfl
+    · rw [if_neg h]
+      obtain ⟨_, y, hy, _, he, h0, h100⟩ := hhi (by omega)
+      exact ⟨y, hy, he, h0, h100⟩
+  · intro h
+    rw [rsiOut_data nm hn _ hpl, hlo h]
+  · intro h
+    obtain ⟨hd, _⟩ := hhi h
+    rw [rsiOut_gain nm hn _ hpl, rsiOut_loss nm hn _ hpl, hd, rsiData_gain, rsiData_loss]
+    exact ⟨rfl, rfl⟩
+
+/-! ### through the engine -/
+
+/-- **RSI, whole series, through the engine**: `calculate()` on the raw candles returns exactly
+the candles of `rsi_series`. -/
+theorem rsi_series_engine (p : Nat) (hp : 1 ≤ p) (nm input : String) (fld : Candle K → Num K) (n : Nat)
+    (hn : RsiNames nm) (hk : IsKey nm) (hin : NoDot input ∧ input ∈ Candle.attrNames)
+    (hattr : ∀ c : Candle K, c.attr input = some (.num (fld c)))
+    (raw : List (Candle K)) (hraw : ∀ c ∈ raw, Plain c) :
+    ∃ rows : List (Val K × Val K), rows.length = raw.length ∧
+      engineCalc (mkTop (.rsi (p : Int) input : Kind K) nm n) raw = .ok (decoRsi nm raw rows) ∧
+      ∀ j, j < raw.length → RsiOK p n (fieldAt fld raw) j (rows.getD j (.none, .none)) := by
+  obtain ⟨rows, hl, hrun, hall⟩ := rsi_series p hp nm input fld n hn hk hin hattr raw hraw
+  refine ⟨rows, hl, ?_, hall⟩
+  have := ((rsiTree (F := K) nm n (p : Int) input (by omega) hn hin).engine [] raw [] (decoRsi nm raw rows) rfl
+    (by simp) hraw).2 (by simpa using hrun)
+  simpa using this
+
+/-- **… and through the object**: building the indicator over the raw candles and calling
+`calculate()` once (the batch run) returns exactly the candles of `rsi_series`. -/
+theorem rsi_series_batch (p : Nat) (hp : 1 ≤ p) (nm input : String) (fld : Candle K → Num K) (n : Nat)
+    (hn : RsiNames nm) (hk : IsKey nm) (hin : NoDot input ∧ input ∈ Candle.attrNames)
+    (hattr : ∀ c : Candle K, c.attr input = some (.num (fld c)))
+    (raw : List (Candle K)) (hraw : ∀ c ∈ raw, Plain c) :
+    ∃ rows : List (Val K × Val K), rows.length = raw.length ∧
+      candlesOf (runIndicator (mkTop (.rsi (p : Int) input : Kind K) nm n) {} raw []) = .ok (decoRsi nm raw rows) ∧
+      ∀ j, j < raw.length → RsiOK p n (fieldAt fld raw) j (rows.getD j (.none, .none)) := by
+  obtain ⟨rows, hl, hrun, hall⟩ := rsi_series p hp nm input fld n hn hk hin hattr raw hraw
+  exact ⟨rows, hl, ((rsiTree (F := K) nm n (p : Int) input (by omega) hn hin).batch_iff (MgrSpec.base K) raw hraw _).2 hrun,
+    hall⟩
+
+/-- **… for every append schedule**: whenever a live history (construction over `init`,
+`calculate()`, then any appends) returns, its candles are those of `rsi_series` over the whole
+stream. -/
+theorem rsi_series_live (p : Nat) (hp : 1 ≤ p) (nm input : String) (fld : Candle K → Num K) (n : Nat)
+    (hn : RsiNames nm) (hk : IsKey nm) (hin : NoDot input ∧ input ∈ Candle.attrNames)
+    (hattr : ∀ c : Candle K, c.attr input = some (.num (fld c)))
+    (init : List (Candle K)) (chunks : List (List (Candle K)))
+    (hraw : ∀ c ∈ init ++ chunks.flatten, Plain c) (snap : List (Candle K))
+    (hsnap : candlesOf (runIndicator (mkTop (.rsi (p : Int) input : Kind K) nm n) {} init chunks) = .ok snap) :
+    ∃ rows : List (Val K × Val K), rows.length = (init ++ chunks.flatten).length ∧
+      snap = decoRsi nm (init ++ chunks.flatten) rows ∧
+      ∀ j, j < (init ++ chunks.flatten).length →
+        RsiOK p n (fieldAt fld (init ++ chunks.flatten)) j (rows.getD j (.none, .none)) := by
+  obtain ⟨rows, hl, hrun, hall⟩ := rsi_series p hp nm input fld n hn hk hin hattr _ hraw
+  have h := (rsiTree (F := K) nm n (p : Int) input (by omega) hn hin).live_refines (MgrSpec.base K) init chunks hraw snap hsnap
+  have h' : Gen.rowMajor (rsiTree (F := K) nm n (p : Int) input (by omega) hn hin).S (init ++ chunks.flatten) = .ok snap := h
+  rw [hrun] at h'
+  exact ⟨rows, hl, (Except.ok.inj h').symm, hall⟩
+
+/-! ### non-vacuity: five candles over ℚ -/
+
+/-- the five raw candles of `HexProps/C04.lean` (`demoRaw`) -/
+def rsiDemoRaw : List (Candle ℚ) :=
+  [Demo.mk 10 12 9 11 100, Demo.mk 11 13 10 12 200, Demo.mk 12 15 11 14 300, Demo.mk 14 16 13 15 0,
+   Demo.mk 15 15 15 15 0]
+
+theorem rsiDemoRaw_plain : ∀ c ∈ rsiDemoRaw, Plain c := by
+  intro c hc
+  simp only [rsiDemoRaw, List.mem_cons, List.not_mem_nil, or_false] at hc
+  rcases hc with rfl | rfl | rfl | rfl | rfl <;> exact ⟨rfl, rfl⟩
+
+theorem rsiNames_demo : RsiNames "RSI_3" := ⟨by decide, by decide, by decide, by decide⟩
+
+example : ∃ rows : List (Val ℚ × Val ℚ), rows.length = rsiDemoRaw.length ∧
+    Gen.rowMajor (rsiTree (F := ℚ) "RSI_3" 4 ((3 : Nat) : Int) "close" (by omega) rsiNames_demo ⟨noDot_close, by decide⟩).S
+      rsiDemoRaw = .ok (decoRsi "RSI_3" rsiDemoRaw rows) ∧
+    ∀ j, j < rsiDemoRaw.length → RsiOK 3 4 (fieldAt (·.c) rsiDemoRaw) j (rows.getD j (.none, .none)) :=
+  rsi_series 3 (by norm_num) "RSI_3" "close" (·.c) 4 rsiNames_demo (by decide) ⟨noDot_close, by decide⟩
+    (fun _ => rfl) rsiDemoRaw rsiDemoRaw_plain
+
+example : ∃ rows : List (Val ℚ × Val ℚ), rows.length = rsiDemoRaw.length ∧
+    candlesOf (runIndicator (mkTop (.rsi ((3 : Nat) : Int) "close" : Kind ℚ) "RSI_3" 4) {} rsiDemoRaw [])
+      = .ok (decoRsi "RSI_3" rsiDemoRaw rows) ∧
+    ∀ j, j < rsiDemoRaw.length → RsiOK 3 4 (fieldAt (·.c) rsiDemoRaw) j (rows.getD j (.none, .none)) :=
+  rsi_series_batch 3 (by norm_num) "RSI_3" "close" (·.c) 4 rsiNames_demo (by decide) ⟨noDot_close, by decide⟩
+    (fun _ => rfl) rsiDemoRaw rsiDemoRaw_plain
+
+/-- the textbook series on the demo candles (closes 11, 12, 14, 15, 15; period 3) -/
+example : rsiSeries 3 (fieldAt (·.c) rsiDemoRaw) 2 = none := by decide
+example : wilderAvg 3 (upAt (fieldAt (·.c) rsiDemoRaw)) 3 = 4 / 3 := by
+  norm_num [wilderAvg, rsum, upAt, fieldAt, rsiDemoRaw, Demo.mk, List.range_succ]
+example : wilderAvg 3 (upAt (fieldAt (·.c) rsiDemoRaw)) 4 = 8 / 9 := by
+  norm_num [wilderAvg, rsum, upAt, fieldAt, rsiDemoRaw, Demo.mk, List.range_succ]
+example : rsiSeries 3 (fieldAt (·.c) rsiDemoRaw) 4 = some 100 := by
+  norm_num [rsiSeries, rsiExact, rsiOf, wilderAvg, rsum, upAt, downAt, fieldAt, rsiDemoRaw, Demo.mk, List.range_succ]
+
+/-- the batch run on the demo candles: `None` at index 2, `100.0` at index 4, data `8/9`, `0` -/
+example : ∃ out : List (Candle ℚ),
+    candlesOf (runIndicator (mkTop (.rsi ((3 : Nat) : Int) "close" : Kind ℚ) "RSI_3" 4) {} rsiDemoRaw []) = .ok out ∧
+    readingByCandle (out.getD 2 default) "RSI_3" = .none ∧
+    readingByCandle (out.getD 4 default) "RSI_3" = .flt 100 ∧
+    readingByCandle (out.getD 4 default) ("RSI_3" ++ "_data.gain") = .flt (8 / 9) ∧
+    readingByCandle (out.getD 4 default) ("RSI_3" ++ "_data.loss") = .flt 0 := by
+  obtain ⟨rows, hl, hrun, hall⟩ := rsi_series_batch 3 (by norm_num) "RSI_3" "close" (·.c) 4 rsiNames_demo (by decide)
+    ⟨noDot_close, by decide⟩ (fun _ => rfl) rsiDemoRaw rsiDemoRaw_plain
+  refine ⟨_, hrun, ?_⟩
+  have hc : ∀ j, j < rsiDemoRaw.length → (decoRsi "RSI_3" rsiDemoRaw rows).getD j default
+      = rsiOut "RSI_3" (rsiDemoRaw.getD j default) (rows.getD j (.none, .none)) := by
+    intro j hj
+    rw [List.getD_eq_getElem?_getD, decoRsi, decoWith_getElem? _ _ _ (.none, .none) j hl hj]; rfl
+  have hp : ∀ j, j < rsiDemoRaw.length → Plain (rsiDemoRaw.getD j default) := by
+    intro j hj
+    apply rsiDemoRaw_plain
+    rw [List.getD_eq_getElem?_getD, List.getElem?_eq_getElem hj]
+    exact List.getElem_mem _
+  have h2 := (hall 2 (by decide)).1 (by decide)
+  obtain ⟨hd, y, hy, hyr, _⟩ := (hall 4 (by decide)).2 (by decide)
+  have e100 : rsiExact 3 (fieldAt (·.c) rsiDemoRaw) 4 = 100 := by
+    norm_num [rsiExact, rsiOf, wilderAvg, rsum, upAt, downAt, fieldAt, rsiDemoRaw, Demo.mk, List.range_succ]
+  have eg : wilderAvg 3 (upAt (fieldAt (·.c) rsiDemoRaw)) 4 = 8 / 9 := by
+    norm_num [wilderAvg, rsum, upAt, fieldAt, rsiDemoRaw, Demo.mk, List.range_succ]
+  have el : wilderAvg 3 (downAt (fieldAt (·.c) rsiDemoRaw)) 4 = 0 := by
+    norm_num [wilderAvg, rsum, downAt, fieldAt, rsiDemoRaw, Demo.mk, List.range_succ]
+  rw [hc 2 (by decide), hc 4 (by decide), rsiOut_own _ (by decide) _ (hp 2 (by decide)),
+    rsiOut_own _ (by decide) _ (hp 4 (by decide)), rsiOut_gain _ rsiNames_demo _ (hp 4 (by decide)),
+    rsiOut_loss _ rsiNames_demo _ (hp 4 (by decide)), h2, hy, hd, rsiData_gain, rsiData_loss, hyr, e100, eg, el,
+    round_hundred]
+  exact ⟨rfl, rfl, rfl, rfl⟩
+
+#print axioms rsi_series
+#print axioms rsi_series_candles
+#print axioms rsi_series_engine
+#print axioms rsi_series_batch
+#print axioms rsi_series_live
 
 end Numeric
 end Hex
